@@ -52,7 +52,12 @@ func checkOne(w Witness) (law, msg string) {
 	const canary = 0xA5
 	backing := make([][]byte, n)
 	before := make([][]byte, n)
-	tables := make([]ot.Table, n)
+	// the table list itself has spare capacity holding two sentinel entries the caller
+	// still owns (writing a subset of a longer list): WriteTTF must not touch them
+	sentinel := ot.Table{Tag: 0x73656E74, Content: []byte{canary, canary, canary}}
+	all := make([]ot.Table, n+2)
+	all[n], all[n+1] = sentinel, sentinel
+	tables := all[:n]
 	for i, t := range w.Tables {
 		// layout: [8 canary][content][spare canary][8 canary]
 		arr := make([]byte, 8+len(t.Content)+t.Spare+8)
@@ -67,6 +72,16 @@ func checkOne(w Witness) (law, msg string) {
 	var out []byte
 	if pv, where := vrun.Catch(func() { out = ot.WriteTTF(tables) }); pv != nil {
 		return "panic", fmt.Sprintf("WriteTTF panicked: %v at %s", pv, where)
+	}
+	for k := n; k < n+2; k++ {
+		if all[k].Tag != sentinel.Tag || len(all[k].Content) != 3 || all[k].Content[0] != canary {
+			return "caller-buffer-modified", fmt.Sprintf("WriteTTF(list[:%d]) modified list[%d] (spare capacity of the caller's table list): now tag %#x, %d bytes", n, k, uint32(all[k].Tag), len(all[k].Content))
+		}
+	}
+	for i := range tables {
+		if uint32(tables[i].Tag) != w.Tables[i].Tag {
+			return "caller-buffer-modified", fmt.Sprintf("WriteTTF changed entry %d of the caller's table list", i)
+		}
 	}
 	for i := range backing {
 		if !bytes.Equal(backing[i], before[i]) {
@@ -244,6 +259,9 @@ func genCase(r *gen.RNG, nTables, maxLen int, forceLen int) Witness {
 	tag := uint32(r.Intn(0x100))
 	for i := 0; i < nTables; i++ {
 		tag += 1 + uint32(r.Intn(0x01000000))
+		if i == 0 && r.Chance(1, 6) {
+			tag = 0 // the smallest tag is a legal one
+		}
 		l := forceLen
 		if l < 0 {
 			switch r.Intn(4) {
